@@ -104,7 +104,7 @@ Print Assumptions C11_map_new_regression.
 Example C11_bitmaps :
   ptrmap TString = [true; false] /\ ptrmap (TSlice TBool) = [true; false; false] /\
   ptrmap (TMap TString TBool) = [true] /\ ptrmap (TPtr TBool) = [true] /\ ptrmap TUnsafePtr = [true] /\
-  ptrmap TChan = [true] /\ ptrmap TFunc = [true] /\ ptrmap TIface = [true; true] /\
+  ptrmap TChan = [true] /\ ptrmap TFunc = [true] /\ ptrmap TIface = [false; true] /\
   ptrmap (TWrap WTime) = [false; false; true] /\ ptrmap (TWrap WNullInt) = [false; false] /\
   ptrmap (TWrap WNullString) = [true; false; false] /\ ptrmap (TWrap WNullTime) = [false; false; true; false] /\
   ptrmap (TWrap WNullBool) = [false] /\ ptrmap (TInt I16) = [false] /\
